@@ -271,8 +271,39 @@ def ex_res(case):
             break
     if rs.item_count != n:
         r.add(f"{P}/reservoir/item-count", f"{rs.item_count} != {n}")
+    # merged reservoirs are reservoirs too: min(k, n) items of the combined stream (n = both totals), and they keep the size
+    # invariant when the stream continues afterwards.  (Only size and membership: whether a merged sample may repeat an element
+    # is not something the property states.)
+    _, a, b = split(case)
+    ra, rb = ReservoirSampler(size=k, seed=case["seed"]), ReservoirSampler(size=k, seed=case["seed"])
+    for x, w in a:
+        ra.add(x, w)
+    for x, w in b:
+        rb.add(x, w)
+    na, nb = sum(w for _, w in a), sum(w for _, w in b)
+    before_b = list(rb.sample())
+    ra.merge(rb)
+    smp = ra.sample()
+    universe = {x for x, w in s if w}
+    if len(smp) != min(k, na + nb) or len(ra) != min(k, na + nb):
+        r.add(f"{P}/reservoir/merged-size", f"merge of reservoirs over {na} and {nb} items (k={k}) holds {len(smp)}, expected {min(k, na + nb)}")
+    elif not set(smp) <= universe:
+        r.add(f"{P}/reservoir/merged-item-not-from-stream", f"{smp!r}")
+    if ra.item_count != na + nb:
+        r.add(f"{P}/reservoir/merged-item-count", f"{ra.item_count} != {na + nb}")
+    if rb.sample() != before_b or rb.item_count != nb:
+        r.add(f"{P}/reservoir/merge-operand-changed", f"{before_b!r} -> {rb.sample()!r}")
+    if not r.violations:
+        m = na + nb
+        for x, w in a[:4]:
+            ra.add(x, w)
+            m += w
+            if len(ra.sample()) != min(k, m):
+                r.add(f"{P}/reservoir/size-after-merge-and-add", f"len={len(ra.sample())} expected min({k},{m})")
+                break
+    part = "both-underfull" if max(na, nb) < k else ("one-underfull" if min(na, nb) < k else "both-full")
     r.nontrivial = n > k
-    r.labels += ["res-overflow" if n > k else "res-underfull"]
+    r.labels += ["res-overflow" if n > k else "res-underfull", "res-merge:" + part]
     return r
 
 
@@ -370,7 +401,9 @@ def chain_strategy(tier):
         return st.fixed_dictionaries({
             "stream": items_strategy(t), "cuts": st.lists(st.integers(0, 200), min_size=2, max_size=3),
             "extra": items_strategy(t).map(lambda l: l[:6]), "seed": st.sampled_from([None, 0, 7]),
-            "kind": st.sampled_from(["bloom", "cms", "hll"]), "order": st.sampled_from(["acc-first", "into-first"]),
+            "kind": st.sampled_from(["bloom", "cms", "hll"]), "order": st.sampled_from(["acc-first", "into-first", "plan", "plan"]),
+            # "plan": arbitrary merge DAGs over the part sketches and one fresh sketch (index = number of parts): (dst, src) pairs
+            "plan": st.lists(st.tuples(st.integers(0, 4), st.integers(0, 4)).map(list), min_size=2, max_size=5),
             "mutate": st.sampled_from(["operand", "accumulator", "clear-operand", "none"]),
         })
     return mk(tier)
@@ -406,6 +439,8 @@ def ex_chain(case):
             sk.add(x, w)
         return sk
     ops = [build(p_) for p_ in parts]
+    if case["order"] == "plan":
+        return _chain_plan(case, r, kind, mk, obs, build, parts, ops, extra, probes)
     if case["order"] == "acc-first":
         acc, merged = mk(), list(range(len(parts)))          # fresh (empty) accumulator, everything merged into it
     else:
@@ -438,6 +473,40 @@ def ex_chain(case):
     empties = sum(1 for p_ in parts if not p_)
     r.nontrivial = len(s) >= 3 and mut != "none"
     r.labels += [kind, "order:" + case["order"], "mutate:" + mut] + (["has-empty-part"] if empties else [])
+    return r
+
+
+def _chain_plan(case, r, kind, mk, obs, build, parts, ops, extra, probes):
+    """Arbitrary merge plans: sketches that were themselves produced by merges are merged onwards (chains, trees, diamonds).
+    Model: the content of a sketch is the concatenation of what was added to it and merged into it."""
+    sk = list(ops) + [mk()]
+    content = [list(p_) for p_ in parts] + [[]]
+    n = len(sk)
+    steps = []
+    for d, s_ in case.get("plan", []):
+        d, s_ = d % n, s_ % n
+        if d == s_ or len(content[d]) + len(content[s_]) > 400:
+            continue
+        sk[d].merge(sk[s_])
+        content[d] = content[d] + content[s_]
+        steps.append((d, s_))
+    mut = case["mutate"]
+    if steps and mut in ("operand", "accumulator"):
+        v = steps[0][1] if mut == "operand" else steps[-1][0]
+        for x, w in extra:
+            sk[v].add(x, w)
+        content[v] = content[v] + extra
+    elif steps and mut == "clear-operand" and hasattr(sk[steps[0][1]], "clear"):
+        sk[steps[0][1]].clear()
+        content[steps[0][1]] = []
+    for i in range(n):
+        if obs(sk[i], probes) != obs(build(content[i]), probes):
+            r.add(f"{P}/chain/{kind}/merge-plan-differs-from-concatenation",
+                  f"sketch {i} after merge steps {steps} (mutate={mut}, parts={[len(p_) for p_ in parts]}) differs from the sketch of its {len(content[i])} items")
+            break
+    onward = any(s_ in {d for d, _ in steps[:j]} for j, (_, s_) in enumerate(steps))
+    r.nontrivial = len(steps) >= 2 and sum(len(p_) for p_ in parts) >= 3
+    r.labels += [kind, "order:plan", "mutate:" + mut] + (["merged-sketch-merged-onwards"] if onward else [])
     return r
 
 
